@@ -17,7 +17,8 @@ EXPLANATION = ('Decided from MIR: (R20.1) panic-site census from urdf::from_urdf
                'table: on joint 3 c2 is read from the x/z components of the origin and b from y, on joint 4 a2 from z and c3 from x/y, the other '
                'lengths from the single non-zero component, and the two-component choice helper is interpreted on point values; (R20.10) every '
                'Parameters value built from a URDFParameters (to_robot, parameters) takes each field from the field of the same name and the '
-               'offsets from the caller.  That the '
+               'offsets from the caller, the sorting weight of the caller reaches Constraints::new (R20.2); (R20.11) an explicit joint-name list is handed on '
+               'unchanged to every stage of the URDF module that takes one.  That the '
                'origin-to-parameter heuristics recover every OPW-layout robot is a behavioural claim over generated documents and not decided.')
 NOT_DECIDED = 'that the heuristics recover the parameters of every OPW-layout robot; name-decoration handling; xacro syntax coverage'
 ASSUMPTIONS = ['sxd_document parses or rejects arbitrary input without panicking', 'Rust regex and Python re agree on the syntax subset used by the angle pattern']
@@ -78,6 +79,10 @@ def limits_defaults(ctx, fu):
             bi, t2 = cs[0]
             a = [strip(b.op_term(x, (bi, None))) for x in t2['args']]
             ok = all(isinstance(a[k], tuple) and a[k][0] == 'fld' and a[k][2] == nm and util.is_param(a[k][1], 1) for k, nm in ((0, 'from'), (1, 'to')))
+            # .. and the sorting weight is the caller's
+            wpar = [k for k in range(1, b.arg_count + 1) if b.local_ty(k) == 'f64']
+            ctx.check(len(a) >= 3 and len(wpar) == 1 and util.is_param(a[2], wpar[0]), 'R20.2', name + '/weight', b.where(bi), b.path,
+                      'the sorting weight given by the caller must reach Constraints::new', found=show(a[2], maxdepth=3) if len(a) >= 3 else None)
         ctx.check(ok, 'R20.2', name + '/limits', b.where(0), b.path, 'the extracted from/to must reach Constraints::new unchanged and in this order')
 
     # the "unconstrained" meaning of from == to is R07.2a; re-checked here because C20 relies on it
@@ -363,6 +368,7 @@ def run(ctx):
             srcfld = mir.subterms(v, lambda x: x[0] == 'fld' and x[2] == want_src)
             slots_ok[fld] = same and bool(srcfld) and util.const_val(r[0]) == 0 and util.const_val(r[1]) == 6
     _parameter_handover(ctx, prog)
+    _names_routing(ctx, prog, fu)
     _component_table(ctx, prog, pp, opl[0])
     for nkey in sorted(ARMS):
         ctx.check(arms.get(nkey) == ARMS[nkey], 'R20.4', 'arm%d' % nkey, pp.where(0), pp.path,
@@ -708,3 +714,30 @@ def _parameter_handover(ctx, prog):
             ctx.check(not bad, 'R20.10', b.path.split('::')[-1], b.where(i, j), b.path,
                       'the parameters handed to the solver must be the extracted ones, field by field: ' + '; '.join(bad), found=str(bad), detail='%d fields' % len(flds))
     ctx.floor('R20.10 parameter hand-overs', n, 1)
+
+
+def _names_routing(ctx, prog, fu):
+    """R20.11: an explicit joint-name list given to from_urdf reaches every stage that reads names: wherever a function of the
+    URDF module that has a names parameter (&Option<[&str; 6]>) calls another one that has it, it hands its own on"""
+    ctx.rule('R20.11', 'the explicit joint-name list is handed on unchanged to every stage that takes one')
+    is_names = lambda ty: 'Option<[&' in ty.replace('std::option::', '') and 'str; 6]' in ty
+    n = 0
+    for p_ in prog.reachable_bodies([fu.path]):
+        b = prog.bodies.get(p_)
+        if b is None or b.kind == 'Closure' or not p_.startswith('urdf::'):
+            continue
+        own = [k for k in range(1, b.arg_count + 1) if is_names(b.local_ty(k))]
+        if len(own) != 1:
+            continue
+        for bi, t in b.calls():
+            cb = prog.bodies.get(t['callee'].get('resolved') or '')
+            if cb is None or cb.kind == 'Closure':
+                continue
+            theirs = [k for k in range(1, cb.arg_count + 1) if is_names(cb.local_ty(k))]
+            if len(theirs) != 1 or theirs[0] - 1 >= len(t['args']):
+                continue
+            n += 1
+            a = b.op_term(t['args'][theirs[0] - 1], (bi, None))
+            ctx.check(util.param_index(a) == own[0], 'R20.11', '%s->%s' % (p_.split('::')[-1], cb.path.split('::')[-1]), b.where(bi), b.path,
+                      'the joint-name list must be handed on as it was given (explicit names would be ignored at this stage)', found=show(a, maxdepth=3))
+    ctx.floor('R20.11 hand-overs', n, 3)
